@@ -42,7 +42,7 @@ func (a *act) invEnv(li *loopInfo, st *State) *SEnv {
 }
 
 // autoInvariants: bounds of range-index loops, checked like user invariants.
-func (a *act) autoInvariants(li *loopInfo) []string {
+func (a *act) autoInvariants(li *loopInfo, st *State) []string {
 	var out []string
 	for _, in := range li.header.Instrs {
 		phi, ok := in.(*ssa.Phi)
@@ -50,6 +50,16 @@ func (a *act) autoInvariants(li *loopInfo) []string {
 			break
 		}
 		if phi.Comment != "rangeindex" {
+			// every live reference was allocated before "now"
+			pv := a.vals[phi]
+			switch pv.S {
+			case SRef:
+				out = append(out, fmt.Sprintf("(< (epoch %s) %s)", pv.T, a.fx.now(st)))
+			case SIface:
+				out = append(out, fmt.Sprintf("(< (epoch (iref %s)) %s)", pv.T, a.fx.now(st)))
+			case SSlice:
+				out = append(out, fmt.Sprintf("(< (epoch (sbase %s)) %s)", pv.T, a.fx.now(st)))
+			}
 			continue
 		}
 		pv := a.vals[phi]
@@ -122,7 +132,7 @@ func (a *act) loopHead(li *loopInfo, b *ssa.BasicBlock, preds []*ssa.BasicBlock,
 		// auto invariants on entry need phi entry values
 		_ = phi
 	}
-	autos := a.autoInvariants(li)
+	autos := a.autoInvariants(li, cur)
 	for i, t := range autos {
 		fx.addObl("inv-entry", fmt.Sprintf("%s%s:auto%d", a.prefix(), a.loopLabel(li), i), reach, t, token.NoPos, "range bound on entry")
 	}
@@ -156,7 +166,7 @@ func (a *act) loopHead(li *loopInfo, b *ssa.BasicBlock, preds []*ssa.BasicBlock,
 			fx.ctx.Assert(Imp(reach, a.safeSpec(inv, env, head)))
 		}
 	}
-	for _, t := range a.autoInvariants(li) {
+	for _, t := range a.autoInvariants(li, head) {
 		fx.ctx.Assert(Imp(reach, t))
 	}
 	return head
@@ -177,7 +187,7 @@ func (a *act) safeSpec(c *Clause, env *SEnv, st *State) string {
 // object that existed at loop entry and is not listed.
 func (a *act) loopFrames(li *loopInfo, st *State) []string {
 	if li.spec == nil || len(li.spec.Modifies) == 0 {
-		return nil
+		return a.defaultLoopFrames(li, st)
 	}
 	fx := a.fx
 	env := a.invEnv(li, li.entryState)
@@ -242,7 +252,7 @@ func (a *act) backEdge(li *loopInfo, from *ssa.BasicBlock, cond string, st *Stat
 			fx.addObl("inv-step", fmt.Sprintf("%s%s:%s", a.prefix(), a.loopLabel(li), invName(inv, i)), cond, t, from.Instrs[len(from.Instrs)-1].Pos(), "loop invariant preserved")
 		}
 	}
-	for i, t := range a.autoInvariants(li) {
+	for i, t := range a.autoInvariants(li, st) {
 		fx.addObl("inv-step", fmt.Sprintf("%s%s:auto%d", a.prefix(), a.loopLabel(li), i), cond, t, token.NoPos, "range bound preserved")
 	}
 	for i, f := range a.loopFrames(li, st) {
@@ -657,8 +667,8 @@ func (a *act) builtin(b *ssa.Builtin, c *ssa.CallCommon, args []Val, guard strin
 		r := fx.alloc(st, "append")
 		na := fx.ctx.Fresh("appended", ArrS(SInt, es))
 		ls, lt := App("slen", s.T), App("slen", t.T)
-		fx.ctx.Assert(fmt.Sprintf("(forall ((i Int)) (! (=> (and (<= 0 i) (< i %s)) (= (select %s i) (select (select %s (sbase %s)) (+ (soff %s) i)))) :pattern ((select %s i))))", ls, na, h, s.T, s.T, na))
-		fx.ctx.Assert(fmt.Sprintf("(forall ((i Int)) (! (=> (and (<= 0 i) (< i %s)) (= (select %s (+ %s i)) (select (select %s (sbase %s)) (+ (soff %s) i)))) :pattern ((select %s (+ %s i)))))", lt, na, ls, h, t.T, t.T, na, ls))
+		fx.ctx.Assert(fmt.Sprintf("(forall ((i Int)) (! (=> (and (<= 0 i) (< i %s)) (= (select %s i) (select (select %s (sbase %s)) (sidx %s i)))) :pattern ((select %s i)) :pattern ((select (select %s (sbase %s)) (sidx %s i)))))", ls, na, h, s.T, s.T, na, h, s.T, s.T))
+		fx.ctx.Assert(fmt.Sprintf("(forall ((i Int)) (! (=> (and (<= 0 i) (< i %s)) (= (select %s (+ %s i)) (select (select %s (sbase %s)) (sidx %s i)))) :pattern ((select %s (+ %s i)))))", lt, na, ls, h, t.T, t.T, na, ls))
 		// common case: one appended element
 		fx.ctx.Assert(Imp(Eq(lt, "1"), Eq(Sel(na, ls), Sel(Sel(h, App("sbase", t.T)), App("soff", t.T)))))
 		fx.setSV(st, hn, hs, Store(fx.sv(st, hn, hs), r, na))
@@ -813,4 +823,130 @@ func (a *act) checkCallSpec(sp *FuncSpec, cs *CallSpec, pname string, fv Val, gu
 		t := fx.specTerm(en.X, env, cl, cl, sp.Pkg)
 		fx.addObl("callspec@"+sp.Key+":"+pname, a.prefix()+normSpace(en.Text), guard, t, pos, "function argument must satisfy the callee's callspec")
 	}
+}
+
+// freshLocal: the SSA value denotes an object allocated by this activation (syntactically).
+func freshLocal(v ssa.Value, depth int) bool {
+	if depth > 6 {
+		return false
+	}
+	switch x := v.(type) {
+	case *ssa.Alloc, *ssa.MakeSlice, *ssa.MakeMap:
+		return true
+	case *ssa.Slice:
+		return freshLocal(x.X, depth+1)
+	case *ssa.Call:
+		if b, ok := x.Call.Value.(*ssa.Builtin); ok && b.Name() == "append" {
+			return true
+		}
+	case *ssa.Phi:
+		for _, e := range x.Edges {
+			if c, ok := e.(*ssa.Const); ok && c.Value == nil {
+				continue
+			}
+			if !freshLocal(e, depth+1) {
+				return false
+			}
+		}
+		return true
+	case *ssa.Convert:
+		_, isSlice := x.Type().Underlying().(*types.Slice)
+		return isSlice
+	}
+	return false
+}
+
+// defaultLoopFrames: heaps that the loop only writes at objects allocated by this function keep, at every object
+// that existed at function entry, their loop-entry contents. Assumed at the head and re-proved at each back edge.
+func (a *act) defaultLoopFrames(li *loopInfo, st *State) []string {
+	fx := a.fx
+	e := fx.eng
+	ok := map[string]bool{}
+	bad := map[string]bool{}
+	for b := range li.blocks {
+		for _, in := range b.Instrs {
+			switch x := in.(type) {
+			case *ssa.Store:
+				elem := derefType(x.Addr.Type())
+				switch ad := x.Addr.(type) {
+				case *ssa.IndexAddr:
+					name := "Elem!" + typeName(elem)
+					if freshLocal(ad.X, 0) {
+						ok[name] = true
+					} else {
+						bad[name] = true
+					}
+				case *ssa.FieldAddr:
+					name := fieldHeap(derefType(ad.X.Type()), ad.Field)
+					if freshLocal(ad.X, 0) {
+						ok[name] = true
+					} else {
+						bad[name] = true
+					}
+				case *ssa.Alloc:
+					ok["Cell!"+typeName(elem)] = true
+				default:
+					if _, isS := elem.Underlying().(*types.Struct); !isS || isCid(elem) {
+						bad["Cell!"+typeName(elem)] = true
+					}
+				}
+			case *ssa.MapUpdate:
+				mt := x.Map.Type().Underlying().(*types.Map)
+				has, val, ln := a.mapHeaps(mt)
+				for _, n := range []string{has, val, ln} {
+					if freshLocal(x.Map, 0) {
+						ok[n] = true
+					} else {
+						bad[n] = true
+					}
+				}
+			case ssa.CallInstruction:
+				c := x.Common()
+				if bi, isB := c.Value.(*ssa.Builtin); isB {
+					switch bi.Name() {
+					case "append":
+						et := c.Args[0].Type().Underlying().(*types.Slice).Elem()
+						ok["Elem!"+typeName(et)] = true
+					case "copy":
+						et := c.Args[0].Type().Underlying().(*types.Slice).Elem()
+						if freshLocal(c.Args[0], 0) {
+							ok["Elem!"+typeName(et)] = true
+						} else {
+							bad["Elem!"+typeName(et)] = true
+						}
+					case "delete":
+						mt := c.Args[0].Type().Underlying().(*types.Map)
+						has, _, ln := a.mapHeaps(mt)
+						bad[has], bad[ln] = true, true
+					}
+					continue
+				}
+				cw, all := a.callWrites(c)
+				if all {
+					return nil
+				}
+				for k := range cw {
+					bad[k] = true
+				}
+			case *ssa.Alloc:
+				// zero-initialisation of a fresh object
+			}
+		}
+	}
+	_ = e
+	var out []string
+	writes, _ := a.loopWrites(li)
+	for _, name := range sortedKeys(writes) {
+		if strings.HasPrefix(name, "$") || bad[name] {
+			continue
+		}
+		srt := writes[name]
+		k, _, isArr := splitArr(srt)
+		if !isArr || k != SRef {
+			continue
+		}
+		out = append(out, fmt.Sprintf("(forall ((o Ref)) (! (=> (< (epoch o) %s) (= (select %s o) (select %s o))) :pattern ((select %s o))))",
+			fx.nowEntry, fx.sv(st, name, srt), fx.sv(li.entryState, name, srt), fx.sv(st, name, srt)))
+	}
+	return out
 }
